@@ -130,6 +130,19 @@ def _commit_fn(cls):
         for n in own_nodes(f.node):
             if isinstance(n, ast.Call) and _attr_call(n, 'commit') and 'consumer' in src(n.func.value):
                 sites.append((f, n))
+    if not sites:
+        # the commit moved into a private module-level helper that is handed the source: the function of the class that
+        # calls that helper is the commit function (the helper is spliced on its normal form)
+        for h in cls.module.functions.values():
+            if not h.name.startswith('_'):
+                continue
+            inner = [n for n in own_nodes(h.node) if isinstance(n, ast.Call) and _attr_call(n, 'commit') and 'consumer' in src(n.func.value)]
+            if not inner:
+                continue
+            for f in scope(cls):
+                for n in own_nodes(f.node):
+                    if isinstance(n, ast.Call) and isinstance(n.func, ast.Name) and n.func.id == h.name:
+                        sites.append((f, inner[0]))
     return sites
 
 
@@ -735,14 +748,29 @@ def check_read_range(ctx, R):
     rets = [n for n in own_nodes(fn.node) if isinstance(n, ast.Return)]
     out = src(rets[0].value) if rets and isinstance(rets[0].value, ast.Name) else None
     keep = stop = False
-    for n in own_nodes(fn.node):
-        if isinstance(n, ast.If):
-            t = norm(n.test, defs).replace(' ', '')
-            appends = any(isinstance(x, ast.Call) and _attr_call(x, 'append') and src(x.func.value) == out for x in ast.walk(n))
-            if t in ('msg.offset()<=high',) and appends:
-                keep = True
-            if t in ('high<=msg.offset()',) and any(isinstance(x, ast.Break) for x in n.body):
-                stop = True
+    # the read loop itself, or a private module-level helper it was moved into (its parameters renamed back to the arguments)
+    import copy as _copy
+    bodies = [(fn.node, defs)]
+    for c in own_nodes(fn.node):
+        if isinstance(c, ast.Call) and isinstance(c.func, ast.Name) and c.func.id.startswith('_'):
+            h = M.function('streamz.sources', c.func.id, required=False)
+            if h is not None and not any(isinstance(a_, ast.Starred) for a_ in c.args):
+                ren = {p_: a_.id for p_, a_ in zip(h.params(), c.args) if isinstance(a_, ast.Name)}
+
+                class Ren(ast.NodeTransformer):
+                    def visit_Name(self_, n_):
+                        return ast.copy_location(ast.Name(id=ren.get(n_.id, n_.id), ctx=n_.ctx), n_)
+                hn = Ren().visit(_copy.deepcopy(h.node))
+                bodies.append((hn, local_defs(hn)))
+    for body, defs_ in bodies:
+        for n in own_nodes(body):
+            if isinstance(n, ast.If):
+                t = norm(n.test, defs_).replace(' ', '')
+                appends = any(isinstance(x, ast.Call) and _attr_call(x, 'append') and src(x.func.value) == out for x in ast.walk(n))
+                if t in ('msg.offset()<=high',) and appends:
+                    keep = True
+                if t in ('high<=msg.offset()',) and any(isinstance(x, (ast.Break, ast.Return)) for x in n.body):
+                    stop = True
     R.ob('READ-RANGE', con, 'keep-upto-high', keep, 'messages are not kept exactly when offset <= high', ctx.where(fn, fn.node.lineno))
     R.ob('READ-RANGE', con, 'stop-at-high', stop, 'the read loop does not stop once offset >= high', ctx.where(fn, fn.node.lineno))
     fin = [n for n in own_nodes(fn.node) if isinstance(n, ast.Try) and any(
